@@ -2,7 +2,7 @@
    on the same cases as the real crate (lib/props/c01.py, harness/src/bin/c01.rs). *)
 Require Import ZArith NArith List Bool Uint63.
 From Dasp Require Import Base.Res Sample.Rint Sample.ConvSpec.
-From DaspGen Require Import ConvGen.
+From DaspGen Require Import FormatTable ConvGen.
 Import ListNotations.
 Open Scope Z_scope.
 
@@ -20,9 +20,18 @@ Definition mode_of (c : Z) : mode := if c =? 0 then Checked else Wrapping.
 Definition obs_of (r : res Z) : list Z :=
   match r with Ok v => [0; v] | Panic k => [8; Z.of_nat (panic_code k)] | UB => [9] end.
 
+(* the harness flags a returned value the target format's own validity check (T::new) rejects with
+   tag 6; by the generated table that is a value outside [MIN, MAX] of the target (for in-range sources
+   c01_in_range proves it never happens; out-of-range representation values of I24/.. can produce it) *)
+Definition obs_valid (fd : fmt) (o : list Z) : list Z :=
+  match o with
+  | [0; v] => if (src_min fd <=? v) && (v <=? src_max fd) then o else [6; v]
+  | _ => o
+  end.
+
 Definition conv_codes (m s d v : Z) : list Z :=
   match fmt_of_code s, fmt_of_code d with
-  | Some fs, Some fd => obs_of (to_sample (mode_of m) fs fd v)
+  | Some fs, Some fd => obs_valid fd (obs_of (to_sample (mode_of m) fs fd v))
   | _, _ => [-1]
   end.
 
@@ -34,13 +43,23 @@ Definition dig_step (acc : Z) (o : list Z) : Z := (acc * 1000003 + dig_enc o + 1
 
 Inductive ccase :=
 | CVals (m s d : Z) (vals : list Z)          (* explicit inputs, every observation compared *)
-| CRange (m s d lo : Z) (n : N).             (* inputs lo, lo+1, ..., lo+n-1, digest compared *)
+| CRange (m s d lo : Z) (n : N)              (* inputs lo, lo+1, ..., lo+n-1, digest compared *)
+| CConsts (f : Z).                           (* the crate's constants of format f against the generated table *)
+
+(* what the harness op `consts` must print for format f: MIN, MAX, <T as Sample>::EQUILIBRIUM,
+   types::EQUILIBRIUM, and T::new accepting MIN and MAX, rejecting MIN-1 and MAX+1 *)
+Definition consts_codes (f : Z) : list Z :=
+  match fmt_of_code f with
+  | Some ff => [0; src_min ff; src_max ff; src_equilibrium ff; src_equilibrium ff; 1; 1; 1; 1]
+  | None => [-1]
+  end.
 
 Definition run_case (c : ccase) : list (list Z) :=
   match c with
   | CVals m s d vals => map (conv_codes m s d) vals
   | CRange m s d lo n =>
     [[snd (N.iter n (fun p => (fst p + 1, dig_step (snd p) (conv_codes m s d (fst p)))) (lo, 0))]]
+  | CConsts f => [consts_codes f]
   end.
 
 Definition zl_eqb (a b : list Z) : bool := if list_eq_dec Z.eq_dec a b then true else false.
